@@ -513,7 +513,7 @@ class JunctionCompartment(Compartment):
                 net_inflow += link.vals[ti]  # If not part of a duration group, get scalar flow from Link.vals
 
         # Next, get the total outflow. Note that the parameters are guaranteed to be in proportion units here
-        outflow_fractions = [link.parameter.vals[ti] for link in self.outlinks]
+        outflow_fractions = [max(link.parameter.vals[ti], 0.0) for link in self.outlinks]  # A negative proportion (e.g. from a parameter function) means no flow, as for other transitions
         total_outflow = sum(outflow_fractions)
         if total_outflow == 0 and not np.any(net_inflow):
             # Nobody is entering the junction so nobody leaves it - avoid 0/0 if all of the proportions are zero. (If people do enter
@@ -543,7 +543,7 @@ class JunctionCompartment(Compartment):
 
         if self.vals[0] > 0:
             # Work out the outflow fractions
-            outflow_fractions = np.array([link.parameter.vals[0] for link in self.outlinks])
+            outflow_fractions = np.maximum(np.array([link.parameter.vals[0] for link in self.outlinks]), 0.0)  # Negative proportions mean no flow
             outflow_fractions /= np.sum(outflow_fractions)
 
             # Assign the inflow directly to the outflow compartments
@@ -585,7 +585,7 @@ class ResidualJunctionCompartment(JunctionCompartment):
         outflow_fractions = np.zeros(len(self.outlinks))
         for i, link in enumerate(self.outlinks):
             if link.parameter is not None:
-                outflow_fractions[i] = link.parameter.vals[ti]
+                outflow_fractions[i] = max(link.parameter.vals[ti], 0.0)  # Negative proportions mean no flow
             else:
                 outflow_fractions[i] = 0
 
@@ -619,7 +619,7 @@ class ResidualJunctionCompartment(JunctionCompartment):
             outflow_fractions = np.zeros(len(self.outlinks))
             for i, link in enumerate(self.outlinks):
                 if link.parameter is not None:
-                    outflow_fractions[i] = link.parameter.vals[0]
+                    outflow_fractions[i] = max(link.parameter.vals[0], 0.0)  # Negative proportions mean no flow
                 else:
                     outflow_fractions[i] = 0
 
